@@ -644,48 +644,74 @@ def _replace(e, lit, x):
     return rec(e)
 
 
-def _partition(fi, q, env):
-    """`sum(quad(f, a, b, ...)[0] for a, b in zip(E[:-1], E[1:]))` with E = sort/unique of [lo, clip(X, lo, hi)..., hi]:
-    the sub-intervals tile [lo, hi].  -> ([lo, hi], break point expressions, the sum expression) or None if the quad call is
-    not inside a comprehension"""
+def _partition_loop(fi, q, env):
+    """the same piecewise integration written as a loop:
+        for i in range(len(E) - 1): v = quad(f, E[i], E[i + 1], ...)[0] (or v, err = quad(...)); L.append(v) / total += v
+    followed by `sum(L)` / `total`.  -> ([lo, hi], break points, the expression that holds the sum) or None"""
     p = q
-    comp = None
-    while p is not None and not isinstance(p, ast.stmt):
-        if isinstance(p, (ast.GeneratorExp, ast.ListComp)):
-            comp = p
+    loop = None
+    while p is not None and not isinstance(p, (ast.FunctionDef, ast.Lambda)):
+        if isinstance(p, ast.For):
+            loop = p
+            break
         p = getattr(p, "_parent", None)
-    if comp is None:
+    if loop is None:
         return None
-    if len(comp.generators) != 1 or comp.generators[0].ifs:
-        raise AnalysisError("piecewise quadrature: comprehension form not modelled")
-    g = comp.generators[0]
-    elt = comp.elt
-    if isinstance(elt, ast.Subscript) and elt.value is q and isinstance(const_value(elt.slice), int) and const_value(elt.slice) != 0:
-        raise _WrongComponent(const_value(elt.slice))
-    if not (isinstance(elt, ast.Subscript) and elt.value is q and const_value(elt.slice) == 0):
-        raise AnalysisError("piecewise quadrature: the summed element is not component 0 of the quad result: %s" % norm_text(elt)[:60])
-    outer = getattr(comp, "_parent", None)
-    if not (isinstance(outer, ast.Call) and (call_name(outer) or "") in ("sum", "np.sum", "math.fsum", "fsum", "numpy.sum") and
-            outer.args and outer.args[0] is comp and len(outer.args) == 1 and not outer.keywords):
-        raise AnalysisError("piecewise quadrature: the pieces are not summed")
-    if not (isinstance(g.target, ast.Tuple) and len(g.target.elts) == 2 and all(isinstance(t, ast.Name) for t in g.target.elts)):
-        raise AnalysisError("piecewise quadrature: loop target not modelled")
-    a_name, b_name = g.target.elts[0].id, g.target.elts[1].id
+    it = loop.iter
+    if not (isinstance(loop.target, ast.Name) and isinstance(it, ast.Call) and call_name(it) == "range" and len(it.args) == 1):
+        raise AnalysisError("piecewise quadrature: loop form not modelled: %s" % norm_text(it)[:60])
+    i = loop.target.id
+    n = it.args[0]
+    ok_n = isinstance(n, ast.BinOp) and isinstance(n.op, ast.Sub) and const_value(n.right) == 1 and isinstance(n.left, ast.Call) and \
+        call_name(n.left) == "len" and len(n.left.args) == 1
+    if not ok_n:
+        raise AnalysisError("piecewise quadrature: loop bound is not len(E) - 1")
+    E = n.left.args[0]
     la, lb = kwarg(q, "a", 1), kwarg(q, "b", 2)
-    if not (isinstance(la, ast.Name) and isinstance(lb, ast.Name) and (la.id, lb.id) == (a_name, b_name)):
-        raise AnalysisError("piecewise quadrature: the limits of a piece are not the loop variables in order")
-    it = g.iter
-    E = None
-    if isinstance(it, ast.Call) and (call_name(it) or "") == "zip" and len(it.args) == 2:
-        u, v = it.args
-        if isinstance(u, ast.Subscript) and isinstance(v, ast.Subscript) and norm_text(u.value) == norm_text(v.value) and \
-                norm_text(u.slice) == ":-1" and norm_text(v.slice) == "1:":
-            E = u.value
-    elif isinstance(it, ast.Call) and (call_name(it) or "") in ("itertools.pairwise", "pairwise") and len(it.args) == 1:
-        E = it.args[0]
-    if E is None:
-        raise AnalysisError("piecewise quadrature: the pieces are not consecutive pairs of one array: %s" % norm_text(it)[:60])
-    Ef = subst_names(E, env)
+    if not (isinstance(la, ast.Subscript) and isinstance(lb, ast.Subscript) and norm_text(la.value) == norm_text(E) == norm_text(lb.value) and
+            norm_text(la.slice) == i and norm_text(lb.slice) in ("%s + 1" % i, "1 + %s" % i)):
+        raise AnalysisError("piecewise quadrature: the limits of a piece are not E[i], E[i + 1]")
+    st = _stmt_of(q)
+    val = None
+    if isinstance(st, ast.Assign) and len(st.targets) == 1:
+        t = st.targets[0]
+        if isinstance(t, ast.Tuple) and st.value is q and isinstance(t.elts[0], ast.Name):
+            val = t.elts[0].id
+        elif isinstance(t, ast.Name) and isinstance(st.value, ast.Subscript) and st.value.value is q:
+            if const_value(st.value.slice) != 0:
+                raise _WrongComponent(const_value(st.value.slice))
+            val = t.id
+    acc = None
+    for s2 in loop.body:
+        if val is not None and isinstance(s2, ast.Expr) and isinstance(s2.value, ast.Call) and isinstance(s2.value.func, ast.Attribute) and \
+                s2.value.func.attr == "append" and isinstance(s2.value.func.value, ast.Name) and len(s2.value.args) == 1 and \
+                norm_text(s2.value.args[0]) == val:
+            acc = ("list", s2.value.func.value.id)
+        if isinstance(s2, ast.AugAssign) and isinstance(s2.op, ast.Add) and isinstance(s2.target, ast.Name):
+            v = s2.value
+            if (val is not None and norm_text(v) == val) or (isinstance(v, ast.Subscript) and v.value is q and const_value(v.slice) == 0):
+                acc = ("sum", s2.target.id)
+            elif isinstance(v, ast.Subscript) and v.value is q:
+                raise _WrongComponent(const_value(v.slice))
+    if acc is None:
+        raise AnalysisError("piecewise quadrature: the pieces are not collected")
+    total = None
+    for r in walk_function(fi.node):
+        if isinstance(r, ast.Return) and r.value is not None:
+            for c in ast.walk(r.value):
+                if acc[0] == "list" and isinstance(c, ast.Call) and (call_name(c) or "") in ("sum", "np.sum", "math.fsum", "fsum") and \
+                        len(c.args) == 1 and norm_text(c.args[0]) == acc[1]:
+                    total = c
+                if acc[0] == "sum" and isinstance(c, ast.Name) and c.id == acc[1]:
+                    total = c
+    if total is None:
+        raise AnalysisError("piecewise quadrature: the sum of the pieces is not returned")
+    lims, breaks = _interval_ends(subst_names(E, env))
+    return lims, breaks, total
+
+
+def _interval_ends(Ef):
+    """E = sort / unique of [lo, clip(X, lo, hi)..., hi]  ->  ([lo, hi], break point expressions)"""
     if not (isinstance(Ef, ast.Call) and (call_name(Ef) or "") in ("np.unique", "np.sort", "sorted", "numpy.unique", "numpy.sort") and Ef.args):
         raise AnalysisError("piecewise quadrature: the interval ends are not sorted (np.unique / np.sort): %s" % norm_text(Ef)[:60])
     inner = _strip_conv(Ef.args[0])
@@ -716,7 +742,55 @@ def _partition(fi, q, env):
     breaks = []
     for c in clips:
         breaks += _elements(c.args[0])
-    return [lo, hi], breaks, outer
+    return [lo, hi], breaks
+
+
+def _partition(fi, q, env):
+    """`sum(quad(f, a, b, ...)[0] for a, b in zip(E[:-1], E[1:]))` with E = sort/unique of [lo, clip(X, lo, hi)..., hi]:
+    the sub-intervals tile [lo, hi].  -> ([lo, hi], break point expressions, the sum expression) or None if the quad call is
+    not inside a comprehension"""
+    p = q
+    comp = None
+    while p is not None and not isinstance(p, ast.stmt):
+        if isinstance(p, (ast.GeneratorExp, ast.ListComp)):
+            comp = p
+        p = getattr(p, "_parent", None)
+    if comp is None:
+        loop = _partition_loop(fi, q, env)
+        if loop is not None:
+            return loop
+        return None
+    if len(comp.generators) != 1 or comp.generators[0].ifs:
+        raise AnalysisError("piecewise quadrature: comprehension form not modelled")
+    g = comp.generators[0]
+    elt = comp.elt
+    if isinstance(elt, ast.Subscript) and elt.value is q and isinstance(const_value(elt.slice), int) and const_value(elt.slice) != 0:
+        raise _WrongComponent(const_value(elt.slice))
+    if not (isinstance(elt, ast.Subscript) and elt.value is q and const_value(elt.slice) == 0):
+        raise AnalysisError("piecewise quadrature: the summed element is not component 0 of the quad result: %s" % norm_text(elt)[:60])
+    outer = getattr(comp, "_parent", None)
+    if not (isinstance(outer, ast.Call) and (call_name(outer) or "") in ("sum", "np.sum", "math.fsum", "fsum", "numpy.sum") and
+            outer.args and outer.args[0] is comp and len(outer.args) == 1 and not outer.keywords):
+        raise AnalysisError("piecewise quadrature: the pieces are not summed")
+    if not (isinstance(g.target, ast.Tuple) and len(g.target.elts) == 2 and all(isinstance(t, ast.Name) for t in g.target.elts)):
+        raise AnalysisError("piecewise quadrature: loop target not modelled")
+    a_name, b_name = g.target.elts[0].id, g.target.elts[1].id
+    la, lb = kwarg(q, "a", 1), kwarg(q, "b", 2)
+    if not (isinstance(la, ast.Name) and isinstance(lb, ast.Name) and (la.id, lb.id) == (a_name, b_name)):
+        raise AnalysisError("piecewise quadrature: the limits of a piece are not the loop variables in order")
+    it = g.iter
+    E = None
+    if isinstance(it, ast.Call) and (call_name(it) or "") == "zip" and len(it.args) == 2:
+        u, v = it.args
+        if isinstance(u, ast.Subscript) and isinstance(v, ast.Subscript) and norm_text(u.value) == norm_text(v.value) and \
+                norm_text(u.slice) == ":-1" and norm_text(v.slice) == "1:":
+            E = u.value
+    elif isinstance(it, ast.Call) and (call_name(it) or "") in ("itertools.pairwise", "pairwise") and len(it.args) == 1:
+        E = it.args[0]
+    if E is None:
+        raise AnalysisError("piecewise quadrature: the pieces are not consecutive pairs of one array: %s" % norm_text(it)[:60])
+    lims_, breaks = _interval_ends(subst_names(E, env))
+    return lims_, breaks, outer
 
 
 def _none_params(e):
